@@ -76,7 +76,13 @@ func vlqBase(k int) *big.Int {
 	if k < len(vlqBases) {
 		return vlqBases[k]
 	}
-	return vlqBaseSlow(k)
+	// geometric sum 128 + 128^2 + ... + 128^(k-1) = (128^k - 128) / 127
+	// (closed form only for long hostile runs; the table below, which every
+	// real quantity uses, is built by the defining recurrence and the two are
+	// compared in the package test)
+	b := new(big.Int).Lsh(big.NewInt(1), uint(7*k))
+	b.Sub(b, big128)
+	return b.Quo(b, big.NewInt(127))
 }
 
 func vlqBaseSlow(k int) *big.Int {
@@ -96,6 +102,25 @@ var vlqBases = func() []*big.Int {
 	}
 	return t
 }()
+
+// groups7 returns the integer whose base-128 digits (most significant first)
+// are the low 7 bits of the given bytes; linear in len(b).
+func groups7(b []byte) *big.Int {
+	k := len(b)
+	out := make([]byte, (7*k+7)/8) // big-endian
+	for i := 0; i < k; i++ {
+		g := uint(b[k-1-i] & 0x7f)
+		bit := 7 * i // position of the group's least significant bit
+		byteFromEnd := bit / 8
+		sh := uint(bit % 8)
+		v := g << sh // up to 15 bits
+		out[len(out)-1-byteFromEnd] |= byte(v)
+		if v>>8 != 0 {
+			out[len(out)-2-byteFromEnd] |= byte(v >> 8)
+		}
+	}
+	return new(big.Int).SetBytes(out)
+}
 
 // VLQSize is the number of bytes of the encoding of n.
 func VLQSize(n uint64) int {
@@ -134,20 +159,19 @@ func PutVLQ(n uint64) []byte {
 // end of the data arrives at (every byte so far was a continuation byte, so the
 // quantity so far is B_k + m + 1: the next digit group would be appended to it).
 func ReadVLQBig(b []byte) (val *big.Int, n int, terminated bool) {
-	m := new(big.Int)
 	for i, c := range b {
-		m.Mul(m, big128)
-		m.Add(m, big.NewInt(int64(c&0x7f)))
 		if c&0x80 == 0 {
+			m := groups7(b[:i+1])
 			return m.Add(m, vlqBase(i+1)), i + 1, true // m is fresh; the table entry is only read
 		}
 	}
 	if len(b) == 0 {
-		return m, 0, false
+		return new(big.Int), 0, false
 	}
+	m := groups7(b)
 	m.Add(m, vlqBase(len(b)))
 	m.Add(m, big.NewInt(1))
-	return m, len(b), false // m is a fresh value: vlqBase results are never modified
+	return m, len(b), false
 }
 
 // ReadVLQ is the strict reader: terminated and representable in 64 bits.
